@@ -22,7 +22,7 @@ from typing import Iterable, Iterator, Sequence
 OPENERS = {"K", "Wa", "Al", "MA", "MB"}
 
 TEMPLATES = {
-    "M": "Mark: m{i}", "T": "0.3 Mark: m{i}", "W": "Wait: 0.3s", "I": "Inst", "L": "Long: 3", "H": "Hang",
+    "M": "Mark: m{i}", "T": "0.3 Mark: m{i}", "Ts": "0.01 Mark: m{i}", "W": "Wait: 0.3s", "I": "Inst", "L": "Long: 3", "H": "Hang",
     "A": "OvA", "B": "OvB", "S": "SetOut: {j}", "V": "Valve: Open", "b": "", "c": "# note {i}",
     "EB": "End block", "EBS": "End blocks", "P": "Pause: 0.3s", "Pu": "Pause", "Ho": "Hold: 0.3s", "Hu": "Hold",
     "St": "Stop", "Rs": "Restart", "CA": "Call macro: A", "CB": "Call macro: B",
@@ -75,8 +75,8 @@ def no_empty_openers(forest) -> bool:
     """True if every body opener has at least one child.  (An opener with an empty body followed by a line at the same
     indentation is silently re-nested by the parser - C17 finding - so such texts do not mean what they look like.)"""
     for kind, children in forest:
-        if kind in OPENERS and not children:
-            return False
+        if kind in OPENERS and not [c for c in children if c[0] not in ("b", "c")]:
+            return False          # a body of blank/comment lines only counts as empty
         if not no_empty_openers(children):
             return False
     return True
